@@ -33,8 +33,19 @@ def projection(p):
     return d
 
 
+EXPECTED_REFUSAL = {'one_or_more': 'CannotBeRepeatedException', 'exactly': 'CannotBeRepeatedException', 'mul': 'CannotBeRepeatedException',
+                    'at_most': 'CannotBeRepeatedException', 'not_preceded_by': None, 'or': 'CannotBeUnionedException', 'sub': 'EmptyClassException'}
+
+
 def apply(objs, act):
     o, i, j, n = act
+    if o.startswith('!'):
+        # a refused call: it must raise a library exception, every time
+        try:
+            apply(objs, (o[1:], i, j, n))
+        except B.PREGEX_EXCEPTIONS:
+            return None, False
+        raise HistoryDependent('the call %s%r was accepted although the specification refuses it (earlier identical calls were refused)' % (o[1:], (i, j, n)))
     if o == 'new':
         return LEAVES[i](), True
     x = objs[i - 1] if i else None
@@ -59,6 +70,12 @@ def apply(objs, act):
         return x.at_most(n), True
     if o == 'capture':
         return x.capture(), True
+    if o == 'capture_n':
+        return x.capture('n'), True
+    if o == 'capture_m':
+        return x.capture('m'), True
+    if o == 'sub':
+        return x - y, True
     if o == 'group':
         return x.group(), True
     if o == 'group_ci':
